@@ -78,4 +78,37 @@ Section ODESeries.
   Definition spec_derivs (v : vfield) (t0 : F) (inits : list (list F)) (num : nat)
     : list (list F) :=
     denormalise (spec_coeffs v t0 (normalise inits) num).
+  (* ================================================================
+     Specification for C11: total time derivatives of a function of k jet
+     coordinates along a curve.
+
+     g is a polynomial over the variables x_{j,b} (index j*d + b, j < K) and
+     t (index K*d).  Along any curve u(.) with u^(j) = x_j, the chain rule gives
+
+         d/dt g(u, u', ..., u^(K-1), t) = (D_t g)(u, u', ..., u^(K), t),
+         D_t g = dg/dt + sum_{j,b} dg/dx_{j,b} * x_{j+1,b}.
+
+     A function of k coordinates lifted by m is embedded into K = k + m
+     coordinates; D_t^l g then involves the coordinates j < k + l only. *)
+  Definition embed_exps (k d K : nat) (es : list nat) : list nat :=
+    firstn (k * d) es ++ repeat 0%nat ((K - k) * d) ++ [nth (k * d) es 0%nat].
+  Definition embed_poly (k d K : nat) (p : @poly F) : @poly F :=
+    map (fun m : @mono F => (fst m, embed_exps k d K (snd m))) p.
+
+  Definition total_deriv (K d : nat) (g : @poly F) : @poly F :=
+    padd (diff_poly (K * d) g)
+         (fold_right (fun idx acc =>
+                        padd (pmul (diff_poly idx g) (pvar (S (K * d)) (idx + d))) acc)
+                     [] (seq 0 ((K - 1) * d))).
+
+  Fixpoint total_deriv_n (K d l : nat) (g : @poly F) : @poly F :=
+    match l with O => g | S l' => total_deriv K d (total_deriv_n K d l' g) end.
+
+  (* the values D_t^l f_o, l = 0..m, at the supplied coefficients x_0..x_{k+m-1} and t *)
+  Definition lift_spec (k d : nat) (ps : list (@poly F)) (m : nat)
+             (coords : list (list F)) (t : F) : list (list F) :=
+    let K := (k + m)%nat in
+    let env := concat (firstn K coords) ++ [t] in
+    map (fun l => map (fun p => eval_poly env (total_deriv_n K d l (embed_poly k d K p))) ps)
+        (seq 0 (S m)).
 End ODESeries.
